@@ -56,6 +56,13 @@ static int spec_parent(int s)
         }
     }
     int p = pos[s], pp;
+#if defined(RELAY_STAR_FALLBACK)
+    /* repaired relay (fix.patch): when the outputs that have destinations do not all have the same
+     * destination set, the root serves every rank directly */
+    { int firstk = -1, uniform = 1;
+      for (int k = 0; k < NOUT; k++) if (dest[k]) { if (firstk < 0) firstk = k; else if (dest[k] != dest[firstk]) uniform = 0; }
+      if (!uniform) return root; }
+#endif
 #if TOPO == 0
     pp = 0;
 #elif TOPO == 1
@@ -81,9 +88,9 @@ static int kf_class(void)
 }
 static void kf_restrict(void)
 {
-#if defined(KF_EXCLUDE_C13_CHAIN_RELAY_DIFFERING_DESTS)
+#if defined(KF_EXCLUDE_C13_CHAIN_RELAY_DIFFERING_DESTS) || defined(KF_EXCLUDE_C05_CHAIN_RELAY_DIFFERING_DESTS)
     VASSUME(!kf_class());
-#elif defined(KF_ONLY_C13_CHAIN_RELAY_DIFFERING_DESTS)
+#elif defined(KF_ONLY_C13_CHAIN_RELAY_DIFFERING_DESTS) || defined(KF_ONLY_C05_CHAIN_RELAY_DIFFERING_DESTS)
     VASSUME(kf_class());
 #endif
 }
